@@ -86,6 +86,8 @@ func vCheckStream(label string, s *vRawSink, perG [][]string) {
 	}
 }
 
+type vPayload4 struct{ N int }
+
 func vC04Case(entriesPerG int) {
 	cfg := zapcore.EncoderConfig{MessageKey: "m"}
 	enc := zapcore.NewJSONEncoder(cfg)
@@ -109,6 +111,12 @@ func vC04Case(entriesPerG int) {
 	}
 	root := New(core)
 	child := root.With(Int("c", 1))
+	// reflected values go through a per-encoder reflection buffer: context and call-site fields of that kind
+	reflected := vrt.Choice("reflected", 2) == 1
+	if reflected {
+		root = root.With(Reflect("r", vPayload4{1}))
+		child = root.Named("n") // same core, hence the same long-lived encoder, as the root
+	}
 	// messages: a symbolic lower-case letter each, so that a corrupted byte cannot hide
 	msg := func(g, e int) string {
 		c := vrt.Byte(vName("m", g*10+e))
@@ -121,9 +129,14 @@ func vC04Case(entriesPerG int) {
 		for e := 0; e < entriesPerG; e++ {
 			m := msg(g, e)
 			msgs[g] = append(msgs[g], m)
-			if g == 0 {
+			switch {
+			case reflected && g == 0:
+				perG[g] = append(perG[g], `{"m":"`+m+`","r":{"N":1},"v":{"N":10}}`)
+			case reflected:
+				perG[g] = append(perG[g], `{"m":"`+m+`","r":{"N":1},"v":{"N":11}}`)
+			case g == 0:
 				perG[g] = append(perG[g], `{"m":"`+m+`"}`)
-			} else {
+			default:
 				perG[g] = append(perG[g], `{"m":"`+m+`","c":1}`)
 			}
 		}
@@ -134,7 +147,11 @@ func vC04Case(entriesPerG int) {
 	go func() {
 		defer wg.Done()
 		for i, m := range msgs[0] {
-			root.Info(m)
+			if reflected {
+				root.Info(m, Reflect("v", vPayload4{10}))
+			} else {
+				root.Info(m)
+			}
 			if syncBy == 0 && i == 0 {
 				_ = root.Sync()
 			}
@@ -143,7 +160,11 @@ func vC04Case(entriesPerG int) {
 	go func() {
 		defer wg.Done()
 		for i, m := range msgs[1] {
-			child.Info(m)
+			if reflected {
+				child.Info(m, Reflect("v", vPayload4{11}))
+			} else {
+				child.Info(m)
+			}
 			if syncBy == 1 && i == 0 {
 				_ = child.Sync()
 			}
@@ -159,7 +180,7 @@ func vC04Case(entriesPerG int) {
 	vrt.Cover("done")
 }
 
-//verif: prop=C04 bounds="2 goroutines, 1 entry each (root logger and a With-child; messages carry a symbolic letter), optionally one of them also calling Sync, over {Lock(sink), BufferedWriteSyncer(Size 16: the child's line exceeds the buffer) straight over the sink, tee of two locked cores, CombineWriteSyncers of two sinks}; the raw sink yields in the middle of every write; every interleaving of synchronisation operations with at most 2 preemptions; race monitor on"
+//verif: prop=C04 bounds="2 goroutines, 1 entry each (root logger and a With-child, optionally with a reflected context value and reflected call-site fields; messages carry a symbolic letter), optionally one of them also calling Sync, over {Lock(sink), BufferedWriteSyncer(Size 16: the child's line exceeds the buffer) straight over the sink, tee of two locked cores, CombineWriteSyncers of two sinks}; the raw sink yields in the middle of every write; every interleaving of synchronisation operations with at most 2 preemptions; race monitor on"
 func VC04Two() { vC04Case(1) }
 
 //verif: prop=C04 tier=thorough bounds="2 goroutines, 2 entries each (as VC04Two), at most 3 preemptions"
